@@ -93,10 +93,22 @@ def solve_one(idx):
     # once several counterexamples are in hand the remaining obligations
     # get a small budget (bounds the run time on a broken tree; irrelevant
     # on a tree where everything discharges)
-    hurry = _GEN["found"].value >= 3
+    hurry = _GEN["found"].value >= 3 and o.kind != "interrupt_inv"
+    ident0 = f"{r.contract.func}::{stable_name(o)}"
+    known_here = ident0 in _GEN.get("known", ()) and _GEN.get("tier") == \
+        "quick"
     try:
-        discharge([o], 2500 if hurry else r.timeout_ms,
-                  use_cvc5=not hurry, refute=not hurry)
+        if known_here:
+            # a listed finding: the quick tier only checks whether it has
+            # gone away (a cheap proof attempt); the thorough tier re-refutes
+            discharge([o], 2500, use_cvc5=False, refute=False)
+            if o.status != "discharged":
+                o.status = "refuted"
+                o.note = ("listed known finding: still not provable (not "
+                          "re-refuted in the quick tier)")
+        else:
+            discharge([o], 2500 if hurry else r.timeout_ms,
+                      use_cvc5=not hurry, refute=not hurry)
     except Exception as e:
         o.status, o.note = "unknown", f"solver error: {e!r}"
     ident = f"{r.contract.func}::{stable_name(o)}"
@@ -108,7 +120,8 @@ def solve_one(idx):
             discharge([o], r.timeout_ms * 4, use_cvc5=True, refute=False)
         except Exception:
             pass
-    if o.status == "refuted":
+    if o.status == "refuted" and not known_here and \
+            o.kind != "interrupt_inv":
         with _GEN["found"].get_lock():
             _GEN["found"].value += 1
     d = {"name": o.name, "stable": stable_name(o), "kind": o.kind,
@@ -116,6 +129,8 @@ def solve_one(idx):
          "line": o.lineno, "status": o.status, "solver": o.solver,
          "time": round(o.time, 4), "note": o.note,
          "path": "".join("T" if b else "F" for b in o.path)}
+    if o.replay is not None:
+        d["replay"] = o.replay
     if o.status == "refuted" and o.model is not None:
         try:
             I = o.interp
@@ -139,6 +154,8 @@ def verify_all(cons, tier, pid, jobs):
     _GEN["results"], _GEN["index"] = results, index
     _GEN["found"] = mp.Value("i", 0)
     _GEN["baseline"] = load_baseline(pid)
+    _GEN["known"] = {k["key"] for k in load_known() if k["property"] == pid}
+    _GEN["tier"] = tier
     solved = {}
     t1 = time.time()
     if index:
@@ -240,6 +257,9 @@ def report(a, seed, cons, results, extra, t_start):
         for o in r["obls"]:
             obls += 1
             ident = f"{r['func']}::{o['stable']}"
+            if o["kind"] == "interrupt_inv":
+                # one finding per statement, whatever clause fails there
+                ident = re.sub(r"\[\d+\]$", "", ident)
             if o["status"] == "discharged":
                 discharged += 1
                 by_backend[o["solver"]] = by_backend.get(o["solver"], 0) + 1
